@@ -91,6 +91,14 @@ namespace g6
    struct G : seq< sor< seq< Q, one< 'c' > >, seq< N, one< 'b' > >, star< N > >, rematch< star< any >, not_at< one< 'c' > > > > {};
 }
 
+namespace g8
+{
+   // a nested re-throw: try_catch_raise_nested reports raise_nested< sub-rule > and the escaping parse_error is nested
+   struct N : seq< one< 'a' >, one< 'b' > > {};
+   struct T : try_catch_raise_nested< seq< one< 'a' >, must< N > > > {};
+   struct G : seq< opt< one< 'c' > >, sor< try_catch_return_false< seq< T, one< 'c' >, must< one< 'c' > > > >, T >, star< any > > {};
+}
+
 // ---------------------------------------------------------------- actions
 template< typename Rule > struct act_none : nothing< Rule > {};
 // bool action vetoing by a deterministic predicate on the matched span, on a few named rules of every grammar
@@ -112,6 +120,7 @@ template<> struct act_veto< g3::N > : veto_base {};
 template<> struct act_veto< g4::P > : veto_base {};
 template<> struct act_veto< g5::N > : veto_base {};
 template<> struct act_veto< g6::Q > : veto_base {};
+template<> struct act_veto< g8::N > : veto_base {};
 // void apply0 on everything named
 template< typename Rule > struct act_void : nothing< Rule > {};
 struct void_base { template< typename... St > static void apply0( St&&... ) {} };
@@ -228,18 +237,37 @@ static std::string dyck( const std::vector< ev >& log )
    return "";
 }
 
+// the escaping exception, level by level ( what() of every nested level )
+static std::string shape_of( const std::exception& e )
+{
+   std::string r = e.what();
+   try {
+      std::rethrow_if_nested( e );
+   }
+   catch( const std::exception& inner ) {
+      r += " <- " + shape_of( inner );
+   }
+   catch( ... ) {
+      r += " <- ?";
+   }
+   return r;
+}
+static std::string g_shape;
+
 // result: 1 true, 0 false, 2 exception
 template< typename G, template< typename... > class Act, template< typename... > class Ctl >
 static int run_observed( const std::string& s, std::vector< ev >& log )
 {
    obs o;
    int r;
+   g_shape.clear();
    memory_input<> in( s.data(), s.data() + s.size(), "c08" );
    try {
       r = parse< G, Act, state_control< Ctl >::template type >( in, o ) ? 1 : 0;
    }
-   catch( const std::exception& ) {
+   catch( const std::exception& e ) {
       r = 2;
+      g_shape = shape_of( e );
    }
    log = std::move( o.log );
    return r;
@@ -304,6 +332,34 @@ static void one_case( const int g, const int c, const std::string& s )
       const bool ok = ( last_close == want ) || ( r == 2 && last_close == 'F' && mi_msg< G > != nullptr );
       if( !ok ) {
          viol( "truth", g, c, s, std::string( "parse() result " ) + std::to_string( r ) + " but the outermost attempt was closed by " + ( last_close ? last_close : '?' ) + ": " + show( log ) );
+      }
+   }
+   // P8 observing does not change the outcome: same result and the same exception, level by level, as the plain parse
+   {
+      const std::string observed = g_shape;
+      std::string plain;
+      int rp;
+      memory_input<> in( s.data(), s.data() + s.size(), "c08" );
+      try {
+         rp = parse< G, Act, Ctl >( in ) ? 1 : 0;
+      }
+      catch( const std::exception& e ) {
+         rp = 2;
+         plain = shape_of( e );
+      }
+      if( rp != r || plain != observed ) {
+         viol( "observed-vs-plain", g, c, s, "under state_control the run ends with " + std::to_string( r ) + " [" + observed + "], the plain parse with " + std::to_string( rp ) + " [" + plain + "]: " + show( log ) );
+      }
+      // a nested level in the escaping exception <=> a raise_nested hook was reported for it
+      std::size_t levels = 0, nested_hooks = 0;
+      for( std::size_t i = 0; ( i = plain.find( " <- ", i ) ) != std::string::npos; i += 4 ) {
+         ++levels;
+      }
+      for( const auto& e : log ) {
+         nested_hooks += ( e.k == 'G' );
+      }
+      if( rp == 2 && nested_hooks < levels ) {
+         viol( "nested", g, c, s, "the escaping exception has " + std::to_string( levels ) + " nested level(s) but only " + std::to_string( nested_hooks ) + " raise_nested hook(s) were reported: " + show( log ) );
       }
    }
    // P3 + P4 coverage
@@ -456,6 +512,7 @@ int main( int argc, char** argv )
       all_cfgs< g5::G >( 5, s );
       all_cfgs< g6::G >( 6, s );
       all_cfgs< g7::G >( 7, s );
+      all_cfgs< g8::G >( 8, s );
    }
    std::printf( "DONE %lu %lu %lu\n", n_cases, n_events, n_viol );
    return 0;
